@@ -1562,7 +1562,8 @@ func (p *Prog) paramFuncTargets(fn *ssa.Function, prm *ssa.Parameter) []*ssa.Fun
 
 // condAtom: a comparison and the truth value it is known to have.
 type condAtom struct {
-	cmp   *ssa.BinOp
+	cmp   *ssa.BinOp // the comparison, or nil when the condition is a plain boolean value
+	val   ssa.Value  // that boolean value (a comma-ok result, the result of a predicate call)
 	truth bool
 }
 
@@ -1587,7 +1588,11 @@ func impliedAtoms2(cond ssa.Value, truth bool, depth int, withPath bool) []condA
 	case *ssa.BinOp:
 		switch x.Op {
 		case token.LSS, token.LEQ, token.GTR, token.GEQ, token.EQL, token.NEQ:
-			return []condAtom{{x, truth}}
+			return []condAtom{{cmp: x, truth: truth}}
+		}
+	case *ssa.Extract, *ssa.Call:
+		if b, ok := cond.Type().Underlying().(*types.Basic); ok && b.Kind() == types.Bool {
+			return []condAtom{{val: cond, truth: truth}}
 		}
 	case *ssa.Phi:
 		// edges that can produce `truth`
@@ -1654,6 +1659,9 @@ func atomsAt(b *ssa.BasicBlock, depth int) []condAtom {
 
 // atomImpliesAtLeastOne: the atom compares x with a constant in a way that makes x >= 1.
 func atomImpliesAtLeastOne(a condAtom, isX func(ssa.Value) bool) bool {
+	if a.cmp == nil {
+		return false
+	}
 	k, isC := constInt(a.cmp.Y)
 	if !isC || !isX(a.cmp.X) {
 		return false
@@ -1692,7 +1700,7 @@ func feasiblePhiEdges(phi *ssa.Phi, at *ssa.BasicBlock) []ssa.Value {
 		contradicts := false
 		for _, a := range in {
 			for _, b := range here {
-				if a.cmp == b.cmp && a.truth != b.truth {
+				if a.cmp == b.cmp && a.val == b.val && a.truth != b.truth {
 					contradicts = true
 				}
 			}
